@@ -437,6 +437,14 @@ theorem C04_source_ordered_is_model (s : Shared α ρ) (m : MethodInfo) (a : α)
       | noMatcher => simp [ofTry, agreesO]
       | userPanic => simp [ofTry, agreesO]
 
+/-- non-vacuity of the source-agreement theorems: concrete runs of the translated skeletons -/
+example :
+    Generated.findSkel.run [false, true, true] = some (some 1) ∧
+    Generated.expectedSkel.run [(false, some 0), (true, none), (true, some 2)] = some (some (2, 2)) ∧
+    runO (fun i => if i = 3 then some 1 else none) (fun _ => .f) Generated.orderedSteps {} 3 = (.errInputs 3 1, 4) ∧
+    runO (fun _ => none) (fun _ => .t) Generated.orderedSteps {} 7 = (.errCallOrder 7, 8) ∧
+    runO (fun _ => some 0) (fun _ => .t) Generated.orderedSteps {} 0 = (.selected 0, 1) := by decide
+
 end Source
 
 end Unimock
